@@ -79,11 +79,7 @@ func (p *Printer) typeSpec(f *Field, ind int) (tag string, attrs []string, body 
 		if f.Enum.Prefix != "" {
 			attrs = append(attrs, fmt.Sprintf("enum.prefix = %q", f.Enum.Prefix))
 		}
-		return "enum", attrs, func() {
-			for _, o := range f.Enum.Opts {
-				p.line(ind, "option %s", o)
-			}
-		}
+		return "enum", attrs, func() { p.enumBody(&Enum{Opts: f.Enum.Opts, OptDesc: f.Enum.OptDesc}, ind) }
 	case "array", "map":
 		blockName := map[string]string{"array": "items", "map": "itemSchema"}[f.Kind]
 		if p.chance(25) || f.Item.Kind == "array" || f.Item.Kind == "map" {
@@ -120,10 +116,13 @@ func (p *Printer) props(ps []*Property, word string, ind int) {
 	}
 }
 
-func (p *Printer) property(pr *Property, word string, ind int) {
+func (p *Printer) property(pr *Property, word string, ind int) { p.propertyWith(pr, word, ind, nil) }
+
+// propertyWith: extra attribute lines (entity keys: primary, shardKey) go into the body.
+func (p *Printer) propertyWith(pr *Property, word string, ind int, extra []string) {
 	tag, tattrs, body := p.typeSpec(pr.F, ind+1)
 	mark := ""
-	var attrs []string
+	attrs := append([]string{}, extra...)
 	if pr.Required {
 		if p.chance(40) || pr.Optional { // both at once (malformed input): written as attributes
 			attrs = append(attrs, "required = true")
@@ -142,15 +141,25 @@ func (p *Printer) property(pr *Property, word string, ind int) {
 		}
 	}
 	if body == nil && len(attrs) == 0 && len(tattrs) == 0 {
-		if p.chance(10) {
+		switch {
+		case pr.Desc != "" && p.chance(50):
+			p.line(ind, "%s %s %s%s | %s", word, pr.Name, mark, tag, pr.Desc) // description at the end of the line
+		case pr.Desc != "":
+			p.line(ind, "%s %s %s%s {", word, pr.Name, mark, tag)
+			p.line(ind+1, "| %s", pr.Desc)
+			p.line(ind, "}")
+		case p.chance(10):
 			p.line(ind, "%s %s %s%s {", word, pr.Name, mark, tag)
 			p.line(ind, "}")
-		} else {
+		default:
 			p.line(ind, "%s %s %s%s", word, pr.Name, mark, tag)
 		}
 		return
 	}
 	p.line(ind, "%s %s %s%s {", word, pr.Name, mark, tag)
+	if pr.Desc != "" {
+		p.line(ind+1, "| %s", pr.Desc) // descriptions come first in a body
+	}
 	for _, a := range attrs {
 		p.line(ind+1, "%s", a)
 	}
@@ -171,7 +180,11 @@ func (p *Printer) enumBody(e *Enum, ind int) {
 		p.line(ind, "prefix = %q", e.Prefix)
 	}
 	for _, o := range e.Opts {
-		p.line(ind, "option %s", o)
+		if d := e.OptDesc[o]; d != "" {
+			p.line(ind, "option %s | %s", o, d)
+		} else {
+			p.line(ind, "option %s", o)
+		}
 	}
 }
 
@@ -183,15 +196,23 @@ func (p *Printer) nested(n *Nested, ind int, parent string) {
 		p.line(ind, "schemas {")
 		ind++
 	}
+	desc := func() {
+		if n.Desc != "" {
+			p.line(ind+1, "| %s", n.Desc)
+		}
+	}
 	switch n.Kind {
 	case "object":
 		p.line(ind, "object %s {", n.Name)
+		desc()
 		p.props(n.Props, "field", ind+1)
 	case "oneof":
 		p.line(ind, "oneof %s {", n.Name)
+		desc()
 		p.props(n.Props, "option", ind+1)
 	case "enum":
 		p.line(ind, "enum %s {", n.Enum.Name)
+		desc()
 		p.enumBody(n.Enum, ind+1)
 	}
 	for _, s := range n.Subs {
@@ -282,6 +303,8 @@ func (p *Printer) Print(f *File) string {
 			p.service(e.Service)
 		case "topic":
 			p.topic(e.Topic)
+		case "entity":
+			p.entity(e.Entity, 0)
 		}
 	}
 	return p.sb.String()
